@@ -17,6 +17,7 @@ pub const REQUIRED: &[&str] = &[
     "window_edge_period",
     "largest_input",
     "around_64KiB_multiples",
+    "ordinary_calls_after_out_of_domain_calls",
 ];
 
 pub fn run(cx: &mut Ctx) {
